@@ -106,6 +106,46 @@ def run_case(lab, mon, case, sample=False):
         mon.sample({"features": RB.case_texts(case), "args": case["args"], "selected": pred.selected,
                     "observed_status": {k: v for k, v in obs.elem_status.items()}})
 
+def two_selections(lab, mon, rng):
+    """The same parsed model run twice with two different tag expressions (no reset in between): the second run executes
+    exactly what the second expression selects and reports every other scenario skipped, whatever the first run did."""
+    gen = {"p_tag": 0.7, "p_nonpass": 0.0, "max_rules": 2, "p_empty_examples": 0.0, "p_stepless": 0.0}
+    case1 = RB.gen_case(rng, gen=gen, p_stop=0.0, p_dry=0.0, p_noskipped=0.6, p_verbose=0.0)
+    tries = 0
+    while case1["cfg"]["tags"] is None and tries < 5:
+        ast, args = RB.random_expr(rng)
+        case1["cfg"]["tags"] = ast
+        case1["args"] = args + [a for a in case1["args"] if not a.startswith("--tags")]
+        tries += 1
+    ast2, args2 = RB.random_expr(rng)
+    tags2 = [a.split("=", 1)[1] for a in args2]
+    second = {}
+
+    def second_run(st):
+        st.calls[:] = []
+        st.hooks[:] = []
+        st.config.tags = list(tags2)
+        st.config.setup_tag_expression()
+        second["verdict"] = st.runner.run()
+
+    def pre_run(st):
+        lab._state = None
+    obs = lab.run(case1["program"], args=case1["args"], pre_run=pre_run, second_run=second_run)
+    case2 = {"program": case1["program"], "args": [a for a in case1["args"] if not a.startswith("--tags")] + args2,
+             "cfg": dict(case1["cfg"], tags=ast2)}
+    mon.case(("two-selections", RB.strip_case(case1), tuple(args2)), True)
+    if obs.escaped is not None:
+        mon.check("select.no_exception_escapes", False, lambda: RB.witness(case2, first_run_args=case1["args"], escaped=repr(obs.escaped)))
+        return
+    pred = runmodel.predict(case2["program"], case2["cfg"])
+    executed = set(n for n, _ in obs.calls)
+    want_exec = set(n for n, _ in pred.calls)
+    mon.check("history.second_selection_executes_exactly", executed == want_exec,
+              lambda: RB.witness(case2, first_run_args=case1["args"], extra=sorted(executed - want_exec), missing=sorted(want_exec - executed)))
+    bad = [n for n, selected in pred.selected.items() if not selected and obs.elem_status.get(n) != "skipped"]
+    mon.check("history.second_selection_others_skipped", not bad,
+              lambda: RB.witness(case2, first_run_args=case1["args"], not_skipped={n: obs.elem_status.get(n) for n in bad[:6]}))
+
 
 def run(spec, mon):
     from ..lab.inproc import RunLab
@@ -148,6 +188,9 @@ def run(spec, mon):
             if ph in blob:
                 mon.seen("outline_tag_placeholder", ph)
         run_case(lab, mon, case, sample=(i == 1 and spec["shard"] < 2))
+        if i % 10 == 5:
+            two_selections(lab, mon, rng)
+            lab._state = None
 
 
 def replay(case, mon):
